@@ -134,6 +134,16 @@ def c05_2(ctx):
     if not encs:
         ctx.bad("no-emission-site", SOME + ":1", "no DER signature emission found in the solver")
         return
+    # one signature per key: a key whose signature was found in the existing script is skipped on EVERY way to an emission (signed
+    # by the lookup or taken from the hints alike); a second signature for the same key counts towards m and pushes another key's out
+    solved = sorted(a for a in sym.all_atoms(w) if a.endswith(" in secs_solved") or " in _find_signatures(" in a)
+    if not solved:
+        ctx.undecided("one-signature-per-key", ctx.where(f), "signing_solver: no test of the key against the keys that already have a signature found")
+    else:
+        for e in encs:
+            okk = any(sym.entails(e.reach, ("not", ("op", a))) for a in solved)
+            ctx.check(okk, "one-signature-per-key", ctx.where(f, e.node), "signing_solver emits a signature on a path that has not excluded `%s`: a key that already has a signature in the existing script is signed again" % solved[0][:70],
+                      sample={"skip_test": solved[0][:70]})
     for e in encs:
         if len(e.call.args) != 2:
             raise Undecided("sigencode_der is not called with (r, s)")
